@@ -497,11 +497,37 @@ def Cons.step (serve : Name → Bool → Option Pkt) (c : Cons) : Ev → ConsOut
         let r := c.f.handleData .timeout
         ({ c with pending := c.pending.filter (·.1 ≠ k), outstanding := c.outstanding - 1, f := r.1 } : Cons).check r.2
 
-/-- run a whole event sequence; returns the final state and, per event, what followed it -/
-def Cons.run (serve : Name → Bool → Option Pkt) (name : Name) (evs : List Ev) : Cons × List ConsOut :=
+/-- what the store answers to the Interest `k` of this consume -/
+def Cons.served (serve : Name → Bool → Option Pkt) (c : Cons) : Key → Option Pkt
+  | none => serve (c.name ++ [metaKw]) true
+  | some k => serve (c.fetchName ++ [segComp k]) false
+
+def countOf (cnt : List (Key × Nat)) (k : Key) : Nat :=
+  match cnt.find? (·.1 = k) with
+  | some (_, n) => n
+  | none => 0
+
+def bump (cnt : List (Key × Nat)) (k : Key) : List (Key × Nat) :=
+  (k, countOf cnt k + 1) :: cnt.filter (·.1 ≠ k)
+
+/-- run a whole event sequence; returns the final state and, per event, what followed it.
+    `delivers k n` = the network lets the n-th Interest for `k` and its Data through in time; the
+    engine then reports Data iff the producer's store answers, a timeout otherwise — an event that
+    contradicts this marks the run `impossible`. -/
+def Cons.run (serve : Name → Bool → Option Pkt) (delivers : Key → Nat → Bool) (name : Name) (evs : List Ev) :
+    Cons × List ConsOut :=
   let o0 := Cons.start name
-  evs.foldl (fun (acc : Cons × List ConsOut) e =>
-    let o := acc.1.step serve e
-    (o.st, acc.2 ++ [o])) (o0.st, [o0])
+  let r := evs.foldl (fun (acc : Cons × List ConsOut × List (Key × Nat)) e =>
+    let c := acc.1
+    let cnt := acc.2.2
+    let consistent : Bool :=
+      match e with
+      | .data k => delivers k (countOf cnt k) && (c.served serve k).isSome
+      | .timeout k => !(delivers k (countOf cnt k) && (c.served serve k).isSome)
+      | .unsolicited => true
+    let o := c.step serve e
+    let o := if consistent then o else { o with st := { o.st with impossible := true } }
+    (o.st, acc.2.1 ++ [o], o.sent.foldl bump cnt)) (o0.st, [o0], o0.sent.foldl bump [])
+  (r.1, r.2.1)
 
 end Ndn.C15
